@@ -31,11 +31,12 @@
 
 dr_global_state GS;
 
-int g_exit_calls;
-void exit_contract(int c)                                  /* dr_check_ -> exit(1): reachability is an obligation */
-  __CPROVER_requires(0 && "a dr_check of the recorder fails (exit(1))")
-  __CPROVER_assigns(g_exit_calls)
-  __CPROVER_ensures(0);
+/* dr_check_ -> exit(1) (--replace-calls exit:verif_exit): reaching it is an obligation failure.  A stub with a body
+   instead of a contract: these jobs need no contract instrumentation, which keeps them small */
+void verif_exit(int c) {
+  __CPROVER_assert(0, "a dr_check of the recorder fails (exit(1))");
+  __CPROVER_assume(0);
+}
 
 /* libc malloc (--replace-calls malloc:verif_malloc_1k): a request of at most 1024 bytes gets a 1024-byte object (CBMC
    runs out of memory on objects of symbolic size); larger requests are an obligation failure */
@@ -108,7 +109,6 @@ void h_enum_edges(void) {
   dr_global_state z = {0};
   GS = z;
   GS.opts.chk_level = nondet_char(); GS.opts.verbose_level = 0; GS.opts.dbg_level = 0;
-  g_exit_calls = 0;
 
   /* arbitrary summaries of the three created (contracted) tasks */
   long C[3][5];
